@@ -125,6 +125,9 @@ static std::string do_qseq(const std::string& ops) {
             auto f = [&] { q.write(o); };
             if (pr) { r = probe(f, [&] { q.abort(); }) ? "q returned" : "q block"; out += (out.empty() ? "" : " | ") + r; break; }
             if (!guarded(f, [&] { q.abort(); })) { out += (out.empty() ? "" : " | ") + std::string("q hang"); break; } }
+        else if (k == "pos") {   // preset the two 32-bit counters (private members, -fno-access-control): sessions close to the wrap-around
+            std::lock_guard<std::mutex> l(q.m_mutex);
+            q.m_tellg = uint32_t(strtoul(a[1].c_str(), nullptr, 10)); q.m_tellp = uint32_t(strtoul(a[2].c_str(), nullptr, 10)); }
         else if (k == "abort") q.abort();
         else if (k == "sfs") q.setFileSize(uint32_t(strtoul(a[1].c_str(), nullptr, 10)));
         else if (k == "sbs") q.setBufferSize(uint32_t(strtoul(a[1].c_str(), nullptr, 10)));
